@@ -1,0 +1,115 @@
+//go:build verif
+
+// Verification hooks for the write-ahead log, part 2 (property C09 of /verif, crash points).
+// Add-only, no logic: the WAL keeps its current segment and its read-only group behind the
+// interfaces ReadWriteSegment / ReadOnlySegmentsGroup; VerifInstrument puts delegating wrappers
+// around the two values, which call a hook before and after each of their file-level operations
+// (Close, Delete, Truncate, TrimSegments, PollHighestSegment, AddedNewSegment).  The harness copies
+// the WAL directory inside the hook: that copy is what a crash at that instant leaves behind.
+
+package wal
+
+import (
+	"fmt"
+
+	"github.com/oxia-db/oxia/common/object"
+)
+
+type verifRW struct {
+	ReadWriteSegment
+	hook func(point string)
+}
+
+func (s *verifRW) Close() error {
+	s.hook(fmt.Sprintf("cur.Close:pre:%d", s.BaseOffset()))
+	err := s.ReadWriteSegment.Close()
+	s.hook(fmt.Sprintf("cur.Close:post:%d", s.BaseOffset()))
+	return err
+}
+
+func (s *verifRW) Delete() error {
+	s.hook(fmt.Sprintf("cur.Delete:pre:%d", s.BaseOffset()))
+	err := s.ReadWriteSegment.Delete()
+	s.hook(fmt.Sprintf("cur.Delete:post:%d", s.BaseOffset()))
+	return err
+}
+
+func (s *verifRW) Truncate(lastSafeOffset int64) error {
+	s.hook(fmt.Sprintf("cur.Truncate:pre:%d", s.BaseOffset()))
+	err := s.ReadWriteSegment.Truncate(lastSafeOffset)
+	s.hook(fmt.Sprintf("cur.Truncate:post:%d", s.BaseOffset()))
+	return err
+}
+
+type verifRO struct {
+	ReadOnlySegment
+	hook func(point string)
+}
+
+func (s *verifRO) Delete() error {
+	s.hook(fmt.Sprintf("ro.Delete:pre:%d", s.BaseOffset()))
+	err := s.ReadOnlySegment.Delete()
+	s.hook(fmt.Sprintf("ro.Delete:post:%d", s.BaseOffset()))
+	return err
+}
+
+type verifRC struct {
+	object.RefCount[ReadOnlySegment]
+	hook func(point string)
+}
+
+func (r *verifRC) Get() ReadOnlySegment {
+	return &verifRO{ReadOnlySegment: r.RefCount.Get(), hook: r.hook}
+}
+
+type verifGroup struct {
+	ReadOnlySegmentsGroup
+	hook func(point string)
+}
+
+func (g *verifGroup) TrimSegments(offset int64) error {
+	g.hook("ro.TrimSegments:pre")
+	err := g.ReadOnlySegmentsGroup.TrimSegments(offset)
+	g.hook("ro.TrimSegments:post")
+	return err
+}
+
+func (g *verifGroup) AddedNewSegment(baseOffset int64) {
+	g.hook(fmt.Sprintf("ro.AddedNewSegment:%d", baseOffset))
+	g.ReadOnlySegmentsGroup.AddedNewSegment(baseOffset)
+}
+
+func (g *verifGroup) PollHighestSegment() (object.RefCount[ReadOnlySegment], error) {
+	g.hook("ro.PollHighestSegment:pre")
+	rc, err := g.ReadOnlySegmentsGroup.PollHighestSegment()
+	if rc == nil || err != nil {
+		return rc, err
+	}
+	return &verifRC{RefCount: rc, hook: g.hook}, nil
+}
+
+func (g *verifGroup) Close() error {
+	g.hook("ro.Close:pre")
+	err := g.ReadOnlySegmentsGroup.Close()
+	g.hook("ro.Close:post")
+	return err
+}
+
+// VerifInstrument wraps the current segment and the read-only group of the WAL (idempotent).
+// Rollover, TruncateLog and Clear install fresh, unwrapped values: call it again after every API call.
+func VerifInstrument(w Wal, hook func(point string)) {
+	t := w.(*wal)
+	t.Lock()
+	defer t.Unlock()
+	if _, ok := t.currentSegment.(*verifRW); !ok {
+		t.currentSegment = &verifRW{ReadWriteSegment: t.currentSegment, hook: hook}
+	}
+	if _, ok := t.readOnlySegments.(*verifGroup); !ok {
+		t.readOnlySegments = &verifGroup{ReadOnlySegmentsGroup: t.readOnlySegments, hook: hook}
+	}
+}
+
+// VerifWalPath is the directory of a shard's WAL below BaseWalDir.
+func VerifWalPath(baseWalDir string, namespace string, shard int64) string {
+	return walPath(baseWalDir, namespace, shard)
+}
